@@ -1423,6 +1423,14 @@ impl<'a> Evaluator<'a> {
     fn chain_has_nested(&self, c: &Cond) -> bool {
         match c {
             Cond::And(a, b) => self.chain_has_nested(a) || self.chain_has_nested(b),
+            // an or of nested blocks on one holder is merged into a single nested block by shake,
+            // which then moves it to the end of the and-group like any other nested block
+            Cond::Or(a, b) => self.chain_has_nested(a) || self.chain_has_nested(b),
+            // a double negation that shake removes (K1) leaves its operand in the chain
+            Cond::Not(inner) if self.opts.shake => match &**inner {
+                Cond::Not(x) => self.chain_has_nested(x),
+                _ => false,
+            },
             Cond::Ident(n) => match self.ident(n) {
                 RIdent::Map(b) => Self::block_has_nested(b),
                 // a one-mapping sequence is unwrapped by shake and inlines like a mapping; a
